@@ -6,7 +6,7 @@ CHECK = {
     ],
     "gen": [{"pkg": "extract_c15", "out": "lean/ClusterVerif/Gen/C15.lean"}],
     "lean_sources": ["ClusterVerif/Model/C15.lean", "ClusterVerif/Spec/C15.lean", "ClusterVerif/Gen/C15.lean"],
-    "rule": "every suite first enumerates, for every JSON field of every section (15 sections, ~150 fields read from the sources), "
+    "rule": "every suite first enumerates, for every JSON field of every section (15 sections, 154 fields read from the sources), "
             "the fixed boundary pool of its type (zero, small, 4095/4096/4097, negative, huge, overflow, wrong JSON types, null; durations "
             "'0s','1ns','60s','-1s', max, '', 'abc'; multiaddresses, peer lists, secrets) plus every default/omit constant of a same-typed "
             "sibling, in the suite's modes (sweep: fresh object, dirty object, malformed-neighbour pairs, TLS files; file: full 14-section "
